@@ -463,3 +463,54 @@ Qed.
 (* the recorded finding in the model: a descent's bracket form does not parse *)
 Theorem bracket_descent_refuted : parse_path (print_path_b [NDescent; NChild [x61]]) = None.
 Proof. vm_compute. reflexivity. Qed.
+
+(* ---- expressions starting with @ or with a fragment *)
+Lemma print_first_ld fs : print_first fs = print_ld true fs.
+Proof.
+  destruct fs as [|f fs]; [reflexivity|]. destruct (print_frags_ld fs) as [E1 E2].
+  destruct f as [k|i|star| |ms|l]; cbn [print_first print_ld].
+  - rewrite E1. reflexivity.
+  - destruct (print_frags_ld (NNth i :: fs)) as [E _]. exact (eq_trans E eq_refl) || (rewrite E; reflexivity).
+  - destruct star; [rewrite E1; reflexivity|]. cbn [print_frags print_frag]. rewrite E1. reflexivity.
+  - cbn [print_frags]. cbn [List.app]. f_equal. exact E2.
+  - cbn [print_frags]. rewrite E1. reflexivity.
+  - cbn [print_frags]. rewrite E1. reflexivity.
+Qed.
+
+Theorem path_text_round_trip_h h fs : Forall frag_ok fs ->
+  parse_path_h (print_path_h h fs) = Some (h, map norm_frag fs).
+Proof.
+  intro Hok. destruct h.
+  - assert (E : parse_path_h (print_path_h HRoot fs) = Some (HRoot, map norm_frag fs)).
+    { unfold parse_path_h, print_path_h. change (beqb x24 x24) with true. cbn iota.
+      destruct (print_frags_ld fs) as [-> _]. rewrite parse_printed; [reflexivity|exact Hok|].
+      pose proof (printed_length fs false). lia. }
+    exact E.
+  - assert (E : parse_path_h (print_path_h HAt fs) = Some (HAt, map norm_frag fs)).
+    { unfold parse_path_h, print_path_h. change (beqb x40 x24) with false. change (beqb x40 x40) with true. cbn iota.
+      destruct (print_frags_ld fs) as [-> _]. rewrite parse_printed; [reflexivity|exact Hok|].
+      pose proof (printed_length fs false). lia. }
+    exact E.
+  - (* no head: the text starts with the first fragment, which is never $ or @ *)
+    unfold print_path_h. rewrite print_first_ld.
+    assert (G : forall w, w = print_ld true fs ->
+                (match w with b :: _ => beqb b x24 = false /\ beqb b x40 = false | [] => True end) ->
+                parse_path_h w = Some (HNone, map norm_frag fs)).
+    { intros w Ew Hw. unfold parse_path_h. destruct w as [|b r].
+      - destruct fs as [|f fs']; [reflexivity|]. exfalso. pose proof (printed_length (f :: fs') true) as HL. rewrite <- Ew in HL. simpl in HL. lia.
+      - destruct Hw as [H1 H2]. rewrite H1, H2. rewrite Ew. rewrite parse_printed; [reflexivity|exact Hok|].
+        pose proof (printed_length fs true). rewrite <- Ew. rewrite <- Ew in H. simpl in *. lia. }
+    destruct fs as [|f fs']; [reflexivity|].
+    destruct f as [k|i|star| |ms|l].
+    + destruct k as [|c k]; [apply G; [reflexivity|]; cbn [print_ld token_ok print_frag List.app]; split; reflexivity|].
+      apply G; [reflexivity|]. cbn [print_ld].
+      destruct (token_ok (c :: k)) eqn:Ht.
+      * unfold token_ok in Ht. cbn [forallb] in Ht. apply andb_true_iff in Ht as [Hc _]. cbn [List.app].
+        split; (destruct (beqb c _) eqn:E; [apply beqb_eq in E; subst c; discriminate Hc | reflexivity]).
+      * unfold print_frag. rewrite Ht. cbn [List.app]. split; reflexivity.
+    + apply G; [reflexivity|]. cbn [print_ld print_frag List.app]. split; reflexivity.
+    + apply G; [reflexivity|]. destruct star; cbn [print_ld print_frag List.app]; split; reflexivity.
+    + apply G; [reflexivity|]. cbn [print_ld]. split; reflexivity.
+    + apply G; [reflexivity|]. cbn [print_ld print_frag List.app]. split; reflexivity.
+    + apply G; [reflexivity|]. cbn [print_ld print_frag List.app]. split; reflexivity.
+Qed.
